@@ -56,6 +56,28 @@ pub fn run_generators(env: &TypeEnv, actor: &Option<Type>, prog: &IDLMergedProg,
 pub fn case(idx: usize, mode: &str, src: &str, accepted: bool, origin: &str) -> Value {
     if !accepted { return json!({"idx": idx, "kind": "skip"}); }
     let c = match crate::prog::check_src(src) { Ok(Ok(c)) => c, _ => return json!({"idx": idx, "kind": "skip"}) };
+    if mode == "rs" {
+        // C18: the Rust binding's type definitions, to be compiled in a batch by the driver
+        let merged = IDLMergedProg::new(c.src.parse::<IDLProg>().unwrap());
+        let r = guard(|| { use std::str::FromStr; let config = rust::Config::new(candid_parser::configs::Configs::from_str("").unwrap()); rust::emit_bindgen(&config, &c.env, &c.actor, &merged).0 });
+        let g = crate::prog::graph(&c, "s");
+        return match r {
+            Err(s) => json!({"idx": idx, "kind": "rs", "origin": origin, "src": src.chars().take(2500).collect::<String>(), "g": g, "status": {"panic": s}, "expect_defs": [], "numeric_nontuple": 0}),
+            Ok(out) => {
+                let mut items = vec![];
+                for line in out.type_defs.lines() {
+                    let l = line.trim_start();
+                    for pre in ["pub struct ", "pub enum ", "pub type ", "candid::define_function!(pub ", "candid::define_service!(pub "] {
+                        if let Some(rest) = l.strip_prefix(pre) { let name: String = rest.chars().take_while(|c| c.is_alphanumeric() || *c == '_' || *c == '#').collect(); if !name.is_empty() { items.push(name); } }
+                    }
+                }
+                let methods: Vec<Value> = out.methods.iter().map(|m| json!({"name": m.name, "original": cps(&m.original_name), "args": m.args.iter().map(|a| a.1.clone()).collect::<Vec<_>>(), "rets": m.rets, "mode": m.mode})).collect();
+                let init: Vec<String> = out.init_args.as_ref().map(|v| v.iter().map(|a| a.1.clone()).collect()).unwrap_or_default();
+                json!({"idx": idx, "kind": "rs", "origin": origin, "src": src.chars().take(2500).collect::<String>(), "g": g, "status": {"ok": 1}, "type_defs": out.type_defs, "items": items, "methods": methods, "init": init,
+                       "expect_defs": reachable_defs(&c), "numeric_nontuple": has_numeric_nontuple(&c) as u8})
+            }
+        };
+    }
     if mode == "js" {
         // C17: only programs with a main service
         if c.actor.is_none() { return json!({"idx": idx, "kind": "skip"}); }
@@ -74,4 +96,42 @@ pub fn case(idx: usize, mode: &str, src: &str, accepted: bool, origin: &str) -> 
     };
     let uniq = main.iter().all(|m| src.matches(&crate::hash::lit(m)).count() + src.matches(&format!("{m} :")).count() == 1);
     json!({"idx": idx, "kind": "bind", "origin": origin, "src": src.chars().take(2000).collect::<String>(), "methods": main.iter().map(|m| cps(m)).collect::<Vec<_>>(), "count_methods": uniq as u8, "gens": gens})
+}
+
+/// definitions the binding has to emit: those reachable from the main service (all of them when there is none)
+fn reachable_defs(c: &crate::prog::Checked) -> Vec<String> {
+    fn walk(env: &TypeEnv, t: &Type, seen: &mut std::collections::BTreeSet<String>) {
+        match t.as_ref() {
+            TypeInner::Var(id) => { if seen.insert(id.clone()) { if let Some(b) = env.0.get(id) { walk(env, b, seen); } } }
+            TypeInner::Opt(a) | TypeInner::Vec(a) => walk(env, a, seen),
+            TypeInner::Record(fs) | TypeInner::Variant(fs) => fs.iter().for_each(|f| walk(env, &f.ty, seen)),
+            TypeInner::Func(f) => f.args.iter().chain(f.rets.iter()).for_each(|a| walk(env, a, seen)),
+            TypeInner::Service(ms) => ms.iter().for_each(|(_, t)| walk(env, t, seen)),
+            TypeInner::Class(args, s) => { args.iter().for_each(|a| walk(env, a, seen)); walk(env, s, seen) }
+            _ => {}
+        }
+    }
+    match &c.actor { None => c.env.0.keys().cloned().collect(), Some(a) => { let mut seen = Default::default(); walk(&c.env, a, &mut seen); seen.into_iter().collect() } }
+}
+/// a numeric label in a record or variant that is not a tuple (the generator has no id-preserving attribute for it)
+fn has_numeric_nontuple(c: &crate::prog::Checked) -> bool {
+    fn walk(t: &Type, hit: &mut bool, depth: usize) {
+        if depth > 30 { return; }
+        match t.as_ref() {
+            TypeInner::Opt(a) | TypeInner::Vec(a) => walk(a, hit, depth + 1),
+            TypeInner::Record(fs) | TypeInner::Variant(fs) => {
+                let tuple = matches!(t.as_ref(), TypeInner::Record(_)) && fs.iter().enumerate().all(|(i, f)| f.id.get_id() == i as u32 && !matches!(f.id.as_ref(), candid::types::Label::Named(_)));
+                if !tuple && fs.iter().any(|f| !matches!(f.id.as_ref(), candid::types::Label::Named(_))) { *hit = true; }
+                fs.iter().for_each(|f| walk(&f.ty, hit, depth + 1))
+            }
+            TypeInner::Func(f) => f.args.iter().chain(f.rets.iter()).for_each(|a| walk(a, hit, depth + 1)),
+            TypeInner::Service(ms) => ms.iter().for_each(|(_, t)| walk(t, hit, depth + 1)),
+            TypeInner::Class(args, s) => { args.iter().for_each(|a| walk(a, hit, depth + 1)); walk(s, hit, depth + 1) }
+            _ => {}
+        }
+    }
+    let mut hit = false;
+    for t in c.env.0.values() { walk(t, &mut hit, 0); }
+    if let Some(a) = &c.actor { walk(a, &mut hit, 0); }
+    hit
 }
